@@ -9,6 +9,7 @@
 package moss
 
 import (
+	"bytes"
 	"encoding/binary"
 	"encoding/json"
 	"fmt"
@@ -437,6 +438,10 @@ func (s *Store) persistHeader(file File) error {
 	return nil
 }
 
+// errHeaderNotWritten is returned by checkHeader for a header page of
+// only zero bytes: the file was extended but the header never reached it.
+var errHeaderNotWritten = fmt.Errorf("store: readHeader header not written")
+
 func checkHeader(file File) error {
 	buf := make([]byte, StorePageSize)
 
@@ -446,6 +451,10 @@ func checkHeader(file File) error {
 	}
 	if n != len(buf) {
 		return fmt.Errorf("store: readHeader too short")
+	}
+
+	if bytes.Equal(buf, make([]byte, len(buf))) {
+		return errHeaderNotWritten
 	}
 
 	lines := strings.Split(string(buf), "\n")
@@ -618,10 +627,12 @@ func openStore(dir string, options StoreOptions) (*Store, error) {
 		err = checkHeader(file)
 		if err != nil {
 			file.Close()
-			if err == io.EOF || err == io.ErrUnexpectedEOF {
-				// The file is too short to even hold a header, such as
-				// after a crash right after its creation: not a usable
-				// data file, so try the next older one.
+			if err == io.EOF || err == io.ErrUnexpectedEOF ||
+				err == errHeaderNotWritten {
+				// The file is too short to even hold a header, or its
+				// header page was never written, such as after a crash
+				// right after its creation: not a usable data file, so
+				// try the next older one.
 				continue
 			}
 			return nil, err
